@@ -22,7 +22,7 @@ UNCHECKED_BY_CONTRACT = {"operator[]"}  # "Out of range errors are detected usin
 
 
 def requests():
-    return [Request(u, fn=[c + "::.*" for c in CLASSES]) for u in UNITS]
+    return [Request(u, fn=[c + "::.*" for c in CLASSES]) for u in UNITS] + [Request("src/buildblock/IndexRange.cxx", fn=["stir::IndexRange::.*"], files=["/repo/src/buildblock/IndexRange.cxx", "/repo/src/include/stir/IndexRange.inl"])]
 
 
 def definitions(units):
@@ -385,6 +385,36 @@ def rule_e_bulk_write_fits(ctx, fn):
     return n
 
 
+PURE = ("begin", "end", "get_min_index", "get_max_index", "get_length", "size", "size_all")
+
+
+def rule_g_no_self_comparison(ctx, fns):
+    """Size, index range, regularity and equality must reflect the CONTENTS: a comparison that decides them has to compare two
+    different things.  `x == x`, `std::equal(a.begin(), a.end(), a.begin())` and the like are always true, so the decision silently
+    ignores part of the data (e.g. the maximum indices of the other rows)."""
+    n = 0
+    for f in fns:
+        if f.body is None:
+            continue
+        bad = []
+        cnt = 0
+        for m in f.walk():
+            if m.k in ("BinaryOperator", "CXXOperatorCallExpr") and m.op in ("==", "!=", "<", ">", "<=", ">=") and len(m.c) == 2:
+                a, b = m.c[0].strip(), m.c[1].strip()
+                cnt += 1
+                if key(a) == key(b) and not any(x.is_call() and (x.callee or "").split("::")[-1] not in PURE for x in list(a.walk())) and not any(x.k in ("UnaryOperator",) and x.op in ("++", "--") for x in a.walk()):
+                    bad.append((m, "`%s %s %s`" % (key(a, True), m.op, key(b, True))))
+            elif m.is_call() and m.callee in ("std::equal", "std::mismatch", "std::lexicographical_compare") and len(m.call_args()) >= 3:
+                a = [key(x.strip()) for x in m.call_args()]
+                cnt += 1
+                if a[0] == a[2]:
+                    bad.append((m, "`%s(%s, %s, %s)` compares a range with itself" % (m.callee, key(m.call_args()[0], True), key(m.call_args()[1], True), key(m.call_args()[2], True))))
+        if cnt:
+            ctx.ob("C11.g-comparisons-compare-two-things", f.qn + "(" + f.sig[:30] + ")", "comparisons", not bad, (bad[0][0] if bad else f).where() if bad else f.where(), "%d comparisons, none of an expression with itself" % cnt if not bad else bad[0][1] + ": always true, the decision ignores what it should look at")
+            n += 1
+    return n
+
+
 def run(ctx):
     ctx.explanation = (
         "Decides from the source, for VectorWithOffset, NumericVectorWithOffset and Array: (a) every raw subscript X.num[i] "
@@ -436,6 +466,8 @@ def run(ctx):
         if fn.cls == "stir::VectorWithOffset" and fn.cfg_raw and not fn.is_dependent and (fn.file, fn.line) not in seen_e and any(c.callee == "std::copy" for c in fn.calls()):
             seen_e.add((fn.file, fn.line))
             ne += rule_e_bulk_write_fits(ctx, fn)
+    rule_g_no_self_comparison(ctx, [f for f in defs if not f.is_dependent])
+    ctx.require_count("C11.g-comparisons-compare-two-things", 20)
     ctx.require_count("C11.e-bulk-write-fits-storage", 2)
     # f: element-wise arithmetic walks its operands together: in every loop over several iterators (xapyb, sapyb, ...) each iterator
     # advances exactly once per iteration on every path (with the operand range guards of rule c this keeps every access in range)
